@@ -796,7 +796,7 @@ def run_C19(res):
     rich = [l for l in run_driver(["feninw " + f for f in capture_rich_fens(rnd, 3000 * res.escalate if res.tier == "quick" else 40000)])
             if l not in ("PANIC", "bad-op")]
     ncap = [0 if c in ("PANIC", "DIED") else (0 if c.strip() == "-" else len(c.split())) for c in run_hx_par(["caps " + p for p in rich])]
-    rich = [p for p, k in sorted(zip(rich, ncap), key=lambda x: -x[1]) if k >= 20][: (400 if res.tier == "quick" else 4000)]
+    rich = [p for p, k in sorted(zip(rich, ncap), key=lambda x: -x[1]) if k >= 20][: (160 if res.tier == "quick" else 4000)]
     okr = in_domain(rich)
     rich = [p for p, o in zip(rich, okr) if o]
     # only those whose whole capture tree the budgeted specification minimax can enumerate (nothing unbounded is ever sent to the engine)
@@ -806,7 +806,11 @@ def run_C19(res):
     res.count("capture_rich_positions_20_plus_captures", len(rich))
     caps_of = dict(zip([l for l in rich], [0] * len(rich)))
     res.count("capture_rich_positions_33_plus_captures_generated", sum(1 for k in ncap if k >= 33))
-    promo = rich + promo
+    # simultaneous pins (a capture that leaves a pin line is an illegal capture: the tree searched is then not the capture tree)
+    pins = [l for l in run_driver([f"gpattern {res.seed + 33} 3 {600 * res.escalate if res.tier == 'quick' else 8000} 0"]) if l and l != "bad-op"]
+    pins = [p for p, c in zip(pins, run_hx_par(["caps " + p for p in pins])) if c not in ("PANIC", "DIED") and c.strip() != "-"]
+    res.count("pin_pattern_positions_with_captures", len(pins))
+    promo = rich + pins[: (250 if res.tier == "quick" else 3000)] + promo
     ps = promo + [p for p in ps if p not in set(promo)]
     ok = in_domain(ps)
     ps = [p for p, o in zip(ps, ok) if o]
@@ -824,7 +828,7 @@ def run_C19(res):
     rnd.shuffle(keep)
     keep.sort(key=lambda k: k[0] not in promo)            # the promotion patterns first (stable: the rest stays shuffled)
     npk = sum(1 for k in keep if k[0] in promo)
-    keep = keep[: (400 if res.tier == "quick" else 3000) + min(npk, 200 if res.tier == "quick" else 1500)]
+    keep = keep[: (400 if res.tier == "quick" else 3000) + min(npk, 450 if res.tier == "quick" else 4000)]
     res.count("promotion_pattern_positions", min(npk, len(keep)))
     exact = run_driver_par([f"sqmin {p} {1200 if res.tier == 'quick' else 2000}" for p, _ in keep])
     res.count("capture_trees_too_big_skipped", sum(1 for v in exact if v == "BIG"))
